@@ -10,6 +10,7 @@ text choosing separators / parentheses / commas / case at random.  The real
 """
 import math
 import random
+import os
 import warnings
 from fractions import Fraction
 
@@ -1228,6 +1229,29 @@ def run_case(case, obs):
     text = render(items)
     case = dict(case, _text=text)
     regs, _ = parse(text)
+    if case['rs'] % 6 == 0 and '\r' not in text:
+        # the same document read from a file (the reader that files go through) gives the same regions
+        import tempfile
+        from regions import Regions
+        with tempfile.TemporaryDirectory(prefix='c10-') as td:
+            path = os.path.join(td, 'doc.reg')
+            with open(path, 'w', encoding='utf-8', newline='') as fh:
+                fh.write(text)
+            with warnings.catch_warnings():
+                warnings.simplefilter('ignore')
+                try:
+                    fregs = list(Regions.read(path, format='ds9'))
+                    ferr = None
+                except Exception as exc:
+                    fregs, ferr = None, exc
+        obs.count('documents-read-from-file')
+        if ferr is not None:
+            obs.violation('file-read-differs-from-parse', f'Regions.read of the document raised {type(ferr).__name__}: {ferr} while Regions.parse of its text gave '
+                          f'{len(regs)} regions', text=text[:600])
+        else:
+            obs.check([fingerprint(r) for r in fregs] == [fingerprint(r) for r in regs], 'file-read-differs-from-parse',
+                      f'Regions.read of the document gave {[type(r).__name__ for r in fregs]}, Regions.parse of its text {[type(r).__name__ for r in regs]}',
+                      'file-read', text=text[:600])
     nviol0 = sum(obs.violation_counts.values())
     for s in seen:
         obs.count('seen:' + s)
